@@ -219,10 +219,88 @@ def check_case(case, tol=1e-7):
     return fails
 
 
+def gen_matrix_case(rng):
+    """matrix-valued Hamiltonian: L levels x one boson mode; levels may carry IDENTICAL operator-valued energies"""
+    L = 2
+    cs = [[rng.randint(0, 3), 4]]
+    cs.append(cs[0] if rng.random() < 0.6 else [cs[0][0] + rng.choice([1, 2, 3]) * 4 + rng.choice([1, 3]), 4])
+    def r():
+        return [rng.randint(-3, 3), rng.randint(1, 5)]
+    diag = [[r(), r()] for _ in range(L)]          # alpha (a + a†) + beta N
+    off = [r(), r()]                                  # x a + y a†   (entry [0,1]); [1,0] is its adjoint
+    if off[0][0] == 0 and off[1][0] == 0:
+        off[0][0] = 1
+    return dict(kind="matrix", L=L, cs=cs, diag=diag, off=off, K=12, N=2)
+
+
+def check_matrix_case(case, tol=1e-7):
+    from pymablock import block_diagonalize
+    from pymablock.series import zero, one
+    from pymablock.number_ordered_form import NumberOperator
+    sp = Space(1, 0, case["K"])
+    a = sp.bos[0]
+    Nop = NumberOperator(a)
+    L = case["L"]
+    H0 = sympy.zeros(L, L)
+    for i in range(L):
+        H0[i, i] = Nop + R(*case["cs"][i])
+    H1 = sympy.zeros(L, L)
+    for i in range(L):
+        al, be = case["diag"][i]
+        H1[i, i] = R(*al) * (a + Dagger(a)) + R(*be) * Nop
+    x, y = case["off"]
+    H1[0, 1] = R(*x) * a + R(*y) * Dagger(a)
+    H1[1, 0] = R(*x) * Dagger(a) + R(*y) * a
+    K = case["K"]
+    N = case["N"]
+
+    def fock(M):
+        if M is zero:
+            return np.zeros((L * K, L * K), dtype=complex)
+        if M is one:
+            return np.eye(L * K, dtype=complex)
+        return np.block([[sp.tomat(M[i, j]) for j in range(L)] for i in range(L)])
+    fails = []
+    with warnings.catch_warnings():
+        warnings.simplefilter("ignore")
+        try:
+            Ht, U, Ud = block_diagonalize([H0, H1])
+            ops = {(nm, k): fock(S[0, 0, k]) for nm, S in (("H_tilde", Ht), ("U", U), ("U†", Ud)) for k in range(N + 1)}
+            h0 = fock(H0).real
+            h1 = fock(H1).real
+            Htm, Um, Udm = block_diagonalize([np.diag(np.diag(h0)), h1])
+        except Exception as e:
+            return [dict(what="block_diagonalize raised %s: %s" % (type(e).__name__, str(e)[:200]), input=case)]
+
+        def dense(v):
+            if v is zero:
+                return np.zeros((L * K, L * K))
+            if v is one:
+                return np.eye(L * K)
+            return np.asarray(v.toarray() if hasattr(v, "toarray") else v)
+        for k in range(N + 1):
+            keep = [lvl * K + n for lvl in range(L) for n in range(K - 1 - (k + 2))]
+            sel = np.ix_(keep, keep)
+            for nm, Sm in (("H_tilde", Htm), ("U", Um)):
+                ref = dense(Sm[0, 0, k])
+                d = np.abs(ops[nm, k][sel] - ref[sel]).max()
+                if not np.isfinite(d) or d > tol * max(1.0, np.abs(ref).max()):
+                    fails.append(dict(what="matrix-valued Hamiltonian: %s at order %d differs from the truncated-matrix result on interior Fock states by %.3g" % (nm, k, d), input=case))
+        Hm = {0: fock(H0), 1: fock(H1)}
+        for n in range(N + 1):
+            keep = [lvl * K + m for lvl in range(L) for m in range(K - 1 - (n + 2))]
+            sel = np.ix_(keep, keep)
+            tot = sum(ops["U†", p] @ Hm[q] @ ops["U", n - p - q] for p in range(n + 1) for q in range(min(1, n - p) + 1))
+            d = np.abs((tot - ops["H_tilde", n])[sel]).max()
+            if d > tol * max(1.0, np.abs(tot).max()):
+                fails.append(dict(what="matrix-valued Hamiltonian: U†HU != H_tilde at order %d on interior Fock states (%.3g)" % (n, d), input=case))
+    return fails
+
+
 def _worker(case):
     t = time.time()
     try:
-        f = check_case(case)
+        f = check_matrix_case(case) if case.get("kind") == "matrix" else check_case(case)
     except Exception as e:
         import traceback
         f = [dict(what="oracle crashed: " + traceback.format_exc()[-800:], input=case, crash=True)]
@@ -232,8 +310,8 @@ def _worker(case):
 def oracle_fock(ctx, ncases=None, N=None):
     n = ncases or ctx.n(6, 80)
     cases = []
-    for _ in range(n):
-        c = gen_case(ctx.rng)
+    for i in range(n):
+        c = gen_matrix_case(ctx.rng) if i % 3 == 2 else gen_case(ctx.rng)
         c["N"] = N or ctx.n(2, 3)
         cases.append(c)
     if ctx.quick:
@@ -251,7 +329,7 @@ def oracle_fock(ctx, ncases=None, N=None):
 
 
 def replay(inp):
-    f = check_case(inp)
+    f = check_matrix_case(inp) if inp.get("kind") == "matrix" else check_case(inp)
     for x in f[:5]:
         print("still fails:", x["what"])
     return 1 if f else 0
